@@ -19,7 +19,8 @@ func init() {
 			" R1 also: under --print-only the echo of an unmatched file is unconditional; R4 also: the value tested against nil is nil unless a change produced a file." +
 			" R5 each file is processed once." +
 			" R6 the bytes kept until the echo are not a window into a re-used buffer (C03-R12)." +
-			" R8 PosMatcher's verdict is validity equality (a token only one side has is a mismatch); R9 the import decision table has no further matching row.",
+			" R8 PosMatcher's verdict is validity equality (a token only one side has is a mismatch); R9 the import decision table has no further matching row." +
+			" R10 every import guard is consulted (= C10-R4).",
 		Trusted:     commonTrusted,
 		Assumptions: commonAssumptions,
 	})
@@ -52,6 +53,8 @@ func runC06(r *an.Run) {
 	// ... and an unnamed patch import does not match a named file import (the matcher's four-row table)
 	c10ImportTable(r)
 	relabel(r, "R3-import-table", "R9-the-import-table-has-no-further-matching-row")
+	c10AllImports(r)
+	relabel(r, "R4-all-imports-must-match", "R10-every-import-guard-is-consulted")
 }
 
 func c06NoEffectPath(r *an.Run, m *runModel) {
